@@ -27,7 +27,8 @@ Record Inv (w : world) : Prop := mkInv {
   inv_lock : s_lock w = false;
   inv_cfg : s_cfg w = w_ccfg w;
   inv_coh : forall u, coh w u;
-  inv_fresh : forall u, fresh w u
+  inv_fresh : forall u, fresh w u;
+  inv_dlock : s_dlock w = false     (* no add-word command is between its load and its save *)
 }.
 
 Lemma idof_plain : forall lg t, kind lg <> KCode -> idof lg t = 0.
@@ -188,11 +189,11 @@ Proof.
 Qed.
 
 Lemma install_inv : forall w u t lgo nv,
-  s_lock w = false -> s_cfg w = w_ccfg w -> others_ok w u -> upd_entry w u t lgo nv = want_entry w u ->
+  s_lock w = false -> s_dlock w = false -> s_cfg w = w_ccfg w -> others_ok w u -> upd_entry w u t lgo nv = want_entry w u ->
   let w1 := set_docs (installed w u t lgo nv) (set_scfg (w_ccfg w) w) in
   Inv (send u (pubval w1 u) w1).
 Proof.
-  intros w u t lgo nv Hl Hc Ho Hr w1.
+  intros w u t lgo nv Hl Hdl Hc Ho Hr w1.
   assert (Cu : coh w1 u).
   { unfold coh. change (s_docs w1) with (installed w u t lgo nv). rewrite lookup_installed_eq, Hr. reflexivity. }
   assert (Pu : pubval w1 u = expected w1 u) by (apply coh_pubval; [reflexivity|exact Cu]).
@@ -204,6 +205,7 @@ Proof.
   - intro v. unfold fresh. rewrite lastword_send.
     destruct (url_eqb v u) eqn:E; [apply url_eqb_eq in E; subst v; exact Pu|].
     apply url_eqb_neq in E. apply Ho, E.
+  - exact Hdl.
 Qed.
 
 Lemma upd_pub_run : forall f rest l w w' t,
@@ -228,6 +230,7 @@ Proof.
   - intro v. change (coh w v). exact (inv_coh w I v).
   - intro v. unfold fresh. rewrite lastword_send. change (expected (send u (pubval w u) w) v) with (expected w v).
     destruct (url_eqb v u) eqn:E; [apply url_eqb_eq in E; subst; apply coh_pubval; [exact (inv_cfg w I)|exact (inv_coh w I u)]|exact (inv_fresh w I v)].
+  - exact (inv_dlock w I).
 Qed.
 
 (* ---------- the entry an update leaves, from the entry it finds ---------- *)
@@ -377,6 +380,7 @@ Proof.
   cbn [l_url lset_ver lset_lang lset_text loc0 l_lang l_ver] in H1. apply run_nil in H1. subst w'.
   apply (install_inv w0 u t (Some l) (Some v)).
   - exact Hl.
+  - exact (inv_dlock w I).
   - exact (inv_cfg w I).
   - unfold w0. cbn [client_effect]. apply others_ok_open; [exact I|].
     intros x Hx. apply url_eqb_neq in Hx. apply lookup_upsert_neq, Hx.
@@ -398,6 +402,7 @@ Proof.
   cbn [l_url lset_ver lset_lang lset_text loc0 l_lang l_ver] in H1. apply run_nil in H1. subst w'.
   apply (install_inv w0 u t None (Some v)).
   - exact Hl.
+  - exact (inv_dlock w I).
   - exact (inv_cfg w I).
   - apply others_ok_open; [exact I|]. intros x Hx. apply url_eqb_neq in Hx. apply lookup_upsert_neq, Hx.
   - unfold want_entry. unfold w0 at 2. cbn [w_open set_open]. rewrite lookup_upsert_eq. cbn [cd_lang].
@@ -416,7 +421,7 @@ Proof.
 Qed.
 
 (* ---------- handlers that re-read the document from disk ---------- *)
-Definition pre (w : world) (u : url) : Prop := s_lock w = false /\ s_cfg w = w_ccfg w /\ others_ok w u.
+Definition pre (w : world) (u : url) : Prop := s_lock w = false /\ s_cfg w = w_ccfg w /\ others_ok w u /\ s_dlock w = false.
 
 Definition reread_ready (w : world) (u : url) : Prop :=
   if is_file u then
@@ -428,7 +433,7 @@ Definition reread_ready (w : world) (u : url) : Prop :=
 
 Lemma pre_coh_inv : forall w u, pre w u -> coh w u -> Inv (send u (pubval w u) w).
 Proof.
-  intros w u (Hl & Hc & Ho) C. constructor; try assumption.
+  intros w u (Hl & Hc & Ho & Hdl) C. constructor; try assumption.
   - intro v. change (coh w v). destruct (url_eq_dec v u) as [->|Hv]; [exact C|apply Ho, Hv].
   - intro v. unfold fresh. rewrite lastword_send. change (expected (send u (pubval w u) w) v) with (expected w v).
     destruct (url_eqb v u) eqn:E; [apply url_eqb_eq in E; subst; apply coh_pubval; assumption|apply url_eqb_neq in E; apply Ho, E].
@@ -439,7 +444,7 @@ Lemma reread_run : forall f rest l w w' u,
   l_url l = u -> pre w u -> reread_ready w u ->
   exists f' l' w1, run_prog f' rest l' w1 = Some w' /\ Inv w1 /\ l_queue l' = l_queue l.
 Proof.
-  intros f rest l w w' u H Hu P R. destruct P as (Hl & Hc & Ho).
+  intros f rest l w w' u H Hu P R. destruct P as (Hl & Hc & Ho & Hdl).
   fuel_step H. cbn [exec] in H. rewrite Hu in H. unfold reread_ready in R.
   destruct (is_file u) eqn:Ef.
   - destruct (lookup u (w_disk w)) as [t|] eqn:Ed.
@@ -450,17 +455,17 @@ Proof.
       exists f', l', (send u (pubval (set_docs (installed w u t None None) (set_scfg (w_ccfg w) w)) u) (set_docs (installed w u t None None) (set_scfg (w_ccfg w) w))).
       split; [exact H1|]. split; [apply install_inv; assumption|exact Hq].
     + cbn [app] in H. fuel_step H. cbn [exec] in H. rewrite Hl, Hu in H. cbn [app] in H.
-      exists f, l, (send u (pubval w u) w). split; [exact H|]. split; [apply pre_coh_inv; [exact (conj Hl (conj Hc Ho))|exact R]|reflexivity].
+      exists f, l, (send u (pubval w u) w). split; [exact H|]. split; [apply pre_coh_inv; [exact (conj Hl (conj Hc (conj Ho Hdl)))|exact R]|reflexivity].
   - cbn [app] in H. fuel_step H. cbn [exec] in H. rewrite Hl, Hu in H. cbn [app] in H.
-    exists f, l, (send u (pubval w u) w). split; [exact H|]. split; [apply pre_coh_inv; [exact (conj Hl (conj Hc Ho))|exact R]|reflexivity].
+    exists f, l, (send u (pubval w u) w). split; [exact H|]. split; [apply pre_coh_inv; [exact (conj Hl (conj Hc (conj Ho Hdl)))|exact R]|reflexivity].
 Qed.
 
 Lemma inv_pre : forall w u, Inv w -> pre w u.
-Proof. intros w u I. exact (conj (inv_lock w I) (conj (inv_cfg w I) (inv_others w u I))). Qed.
+Proof. intros w u I. exact (conj (inv_lock w I) (conj (inv_cfg w I) (conj (inv_others w u I) (inv_dlock w I)))). Qed.
 
 (* Inv does not mention the documents on disk *)
 Lemma inv_set_disk : forall w d, Inv w -> Inv (set_disk d w).
-Proof. intros w d I. constructor; [exact (inv_lock w I)|exact (inv_cfg w I)|exact (inv_coh w I)|exact (inv_fresh w I)]. Qed.
+Proof. intros w d I. constructor; [exact (inv_lock w I)|exact (inv_cfg w I)|exact (inv_coh w I)|exact (inv_fresh w I)|exact (inv_dlock w I)]. Qed.
 
 (* ---------- didSave ---------- *)
 Lemma inv_save : forall w u w', Inv w -> run_op (Save u) w = Some w' -> Inv w'.
@@ -498,6 +503,7 @@ Proof.
       with (lastword (send u PEmpty w) v).
     rewrite lastword_send. unfold expected, fdict_of in *. cbn [set_lock send set_log set_docs set_open w_open w_udict w_fdict w_ccfg].
     rewrite lookup_remove. destruct (url_eqb v u); [reflexivity|exact F].
+  - exact (inv_dlock w I).
 Qed.
 
 (* ---------- HarperRecordLint ---------- *)
@@ -527,7 +533,7 @@ Proof.
     { unfold coh, want_entry, w1. cbn [s_docs set_docs set_open w_open]. rewrite !lookup_upsert_eq. cbn [cd_lang].
       destruct (kind (cd_lang cd)); [reflexivity|reflexivity|congruence]. }
     apply (pre_coh_inv w1 u); [|exact Cu].
-    split; [exact (inv_lock w I)|]. split; [exact (inv_cfg w I)|].
+    split; [exact (inv_lock w I)|]. split; [exact (inv_cfg w I)|]. split; [|exact (inv_dlock w I)].
     intros x Hx. destruct (others_ok_open w u (upsert u (mkcdoc (cd_lang cd) (cd_text cd) (ins k (cd_ign cd)) (cd_ver cd)) (w_open w)) I) with (v := x) as [C F];
       [intros y Hy; apply url_eqb_neq in Hy; apply lookup_upsert_neq, Hy|exact Hx|].
     apply url_eqb_neq in Hx. split.
@@ -545,6 +551,7 @@ Proof.
     + intro v. pose proof (inv_fresh w I v) as F. unfold fresh, lastword, expected, fdict_of in *.
       cbn [s_log set_open w_open s_cfg w_udict w_fdict w_ccfg]. rewrite lookup_upsert.
       destruct (url_eqb v u) eqn:E; [|exact F]. apply url_eqb_eq in E. subst v. rewrite Eo, N in F. cbn. rewrite N. exact F.
+    + exact (inv_dlock w I).
 Qed.
 
 (* ---------- didChangeWatchedFiles ---------- *)
@@ -625,18 +632,19 @@ Proof.
         assert (mem_url v gone = true) by (apply Hgone; split; assumption). congruence. }
       change (lastword w v = PEmpty). unfold fresh in F. rewrite F, <- (coh_pubval w v (inv_cfg w I) C). unfold pubval. rewrite Hn. reflexivity.
     + destruct (mem_url v gone) eqn:Eg; [apply Hgone in Eg; destruct Eg; congruence|]. exact F.
+  - exact (inv_dlock w I).
 Qed.
 
 (* ---------- add-to-dictionary commands: the dictionary files change, then the document is re-read ---------- *)
 Definition same_server (w wd : world) : Prop :=
   w_open wd = w_open w /\ w_ccfg wd = w_ccfg w /\ s_cfg wd = s_cfg w /\ s_docs wd = s_docs w /\
-  s_lock wd = s_lock w /\ s_log wd = s_log w /\ w_disk wd = w_disk w.
+  s_lock wd = s_lock w /\ s_log wd = s_log w /\ w_disk wd = w_disk w /\ s_dlock wd = s_dlock w.
 
 Lemma pre_dict_change : forall w wd u, Inv w -> same_server w wd ->
   (forall v, v <> u -> expected wd v = expected w v /\ want_entry wd v = want_entry w v) -> pre wd u.
 Proof.
-  intros w wd u I (Eo & Ec & Es & Ed & El & Eg & Ek) Hexp.
-  unfold pre. rewrite El, Es, Ec. split; [exact (inv_lock w I)|]. split; [exact (inv_cfg w I)|].
+  intros w wd u I (Eo & Ec & Es & Ed & El & Eg & Ek & Edl) Hexp.
+  unfold pre. rewrite El, Es, Ec, Edl. split; [exact (inv_lock w I)|]. split; [exact (inv_cfg w I)|]. split; [|exact (inv_dlock w I)].
   intros v Hv. destruct (Hexp v Hv) as [E1 E2]. unfold coh, fresh, lastword. rewrite Ed, Eg, E1, E2.
   split; [exact (inv_coh w I v)|exact (inv_fresh w I v)].
 Qed.
@@ -645,7 +653,7 @@ Lemma reread_ready_gen : forall w wd u, Inv w -> same_server w wd ->
   (lookup u (s_docs w) = None -> want_entry wd u = want_entry w u) ->
   reread_ok w u = true -> reread_ready wd u.
 Proof.
-  intros w wd u I (Eo & Ec & Es & Ed & El & Eg & Ek) Hw R.
+  intros w wd u I (Eo & Ec & Es & Ed & El & Eg & Ek & _) Hw R.
   assert (Hunread : (is_file u = false \/ lookup u (w_disk w) = None) -> coh wd u).
   { intro Hu. unfold coh. rewrite Ed.
     pose proof (inv_coh w I u) as C. unfold coh in C.
@@ -686,12 +694,13 @@ Lemma inv_adduser : forall w x u w', Inv w -> op_safeb w (AddUser x u) = true ->
 Proof.
   intros w x u w' I Hs H. unfold run_op in H. cbn [prog locals_of client_effect] in H. open_fuel H.
   cbn [op_safeb] in Hs. apply andb_true_iff in Hs as [Hr Hs].
-  do 3 (fuel_step H; cbn [exec app] in H).
-  cbn [l_word l_ud lset_ud lset_word loc0 w_udict set_udict] in H.
-  set (wd := set_udict (add_word x (w_udict w)) w) in *.
-  assert (SS : same_server w wd) by (repeat split).
+  fuel_step H. cbn [exec] in H. rewrite (inv_dlock w I) in H. cbn [app] in H.
+  do 2 (fuel_step H; cbn [exec app] in H).
+  cbn [l_word l_ud lset_ud lset_word loc0 w_udict set_udict set_dlock] in H.
+  set (wd := set_dlock false _) in H.
+  assert (SS : same_server w wd) by (repeat split; try reflexivity; symmetry; exact (inv_dlock w I)).
   assert (Hexp : forall v, v <> u -> expected wd v = expected w v /\ want_entry wd v = want_entry w v).
-  { intros v Hv. unfold expected, want_entry, good_entry, cur_dict, fdict_of, wd. cbn [w_open set_udict w_udict w_fdict w_ccfg].
+  { intros v Hv. unfold expected, want_entry, good_entry, cur_dict, fdict_of, wd. cbn [w_open set_udict set_dlock w_udict w_fdict w_ccfg].
     apply orb_true_iff in Hs as [Hs|Hs]; [rewrite (existsb_add_word _ _ Hs); split; reflexivity|].
     destruct (lookup v (w_open w)) as [cd|] eqn:Eo; [|split; reflexivity].
     rewrite (others_closed_spec w u v cd Hs Hv Eo). split; reflexivity. }
@@ -706,15 +715,15 @@ Lemma inv_addfile : forall w x u w', Inv w -> op_safeb w (AddFile x u) = true ->
 Proof.
   intros w x u w' I Hs H. unfold run_op in H. cbn [prog locals_of client_effect] in H. open_fuel H.
   cbn [op_safeb] in Hs.
-  fuel_step H. cbn [exec] in H. cbn [l_url lset_word loc0] in H.
+  fuel_step H. cbn [exec] in H. rewrite (inv_dlock w I) in H. cbn [l_url lset_word loc0] in H.
   destruct (is_file u) eqn:Ef.
   - cbn [negb] in Hs. rewrite orb_false_r in Hs. cbn [app] in H.
     do 2 (fuel_step H; cbn [exec app] in H).
-    cbn [l_url l_word l_fd lset_fd lset_word loc0 w_fdict set_fdict] in H.
-    set (wd := set_fdict _ w) in *.
-    assert (SS : same_server w wd) by (repeat split).
+    cbn [l_url l_word l_fd lset_fd lset_word loc0 w_fdict set_fdict set_dlock] in H.
+    set (wd := set_dlock false _) in H.
+    assert (SS : same_server w wd) by (repeat split; try reflexivity; symmetry; exact (inv_dlock w I)).
     assert (Hexp : forall v, v <> u -> expected wd v = expected w v /\ want_entry wd v = want_entry w v).
-    { intros v Hv. apply url_eqb_neq in Hv. unfold expected, want_entry, good_entry, cur_dict, fdict_of, wd. cbn [w_open set_fdict w_udict w_fdict w_ccfg].
+    { intros v Hv. apply url_eqb_neq in Hv. unfold expected, want_entry, good_entry, cur_dict, fdict_of, wd. cbn [w_open set_fdict set_dlock w_udict w_fdict w_ccfg].
       rewrite !lookup_upsert_neq by exact Hv. split; reflexivity. }
     destruct (reread_run _ [] _ wd w' u H eq_refl (pre_dict_change w wd u I SS Hexp)
                 (reread_ready_gen w wd u I SS (fun He => want_entry_noparser w wd u eq_refl He (inv_coh w I u)) Hs))
@@ -738,7 +747,7 @@ Definition qready (w : world) (v : url) : Prop :=
 
 Definition CInv (w : world) (q : list url) : Prop :=
   s_lock w = false /\ s_cfg w = w_ccfg w /\
-  (forall v, In v q -> qready w v) /\ (forall v, (coh w v /\ fresh w v) \/ In v q).
+  (forall v, In v q -> qready w v) /\ (forall v, (coh w v /\ fresh w v) \/ In v q) /\ s_dlock w = false.
 
 Lemma qready_after_install : forall w u t v,
   upd_entry w u t None None = want_entry w u -> qready w v -> qready (after_install w u t) v.
@@ -759,7 +768,7 @@ Qed.
 
 Lemma cfg_loop : forall q f l w w', l_queue l = q -> CInv w q -> run_prog f [ICfgNext] l w = Some w' -> Inv w'.
 Proof.
-  induction q as [|v q IH]; intros f l w w' Hq (Hl & Hc & Hrdy & Hor) H.
+  induction q as [|v q IH]; intros f l w w' Hq (Hl & Hc & Hrdy & Hor & Hdl) H.
   - fuel_step H. cbn [exec] in H. rewrite Hq in H. cbn [app] in H. apply run_nil in H. subst w'.
     constructor; try assumption.
     + intro v. destruct (Hor v) as [[C _]|[]]. exact C.
@@ -779,7 +788,7 @@ Proof.
       change (expected (send v (pubval w1 v) w1) v) with (expected w1 v).
       apply coh_pubval; [reflexivity|exact C]. }
     apply (IH f' l' (after_install w v t) w'); [exact Hq'| |exact H1].
-    split; [exact Hl|]. split; [reflexivity|]. split.
+    split; [exact Hl|]. split; [reflexivity|]. split; [|split; [|exact Hdl]].
     + intros v' Hin. apply qready_after_install; [exact Hr|]. apply Hrdy. right. exact Hin.
     + intro v'. destruct (url_eq_dec v' v) as [->|Hv]; [left; exact Hown|].
       destruct (Hor v') as [[C F]|[E|Hin]]; [left|congruence|right; exact Hin].
@@ -799,7 +808,7 @@ Proof.
   apply (cfg_loop _ _ _ wc w' eq_refl) in H; [exact H|]. clear H.
   assert (Hlk : forall v, lookup v (s_docs wc) = option_map (e_set_lcfg c) (lookup v (s_docs w))).
   { intro v. unfold wc. cbn [s_docs set_docs]. apply lookup_map_val. }
-  split; [exact (inv_lock w I)|]. split; [reflexivity|]. split.
+  split; [exact (inv_lock w I)|]. split; [reflexivity|]. split; [|split; [|exact (inv_dlock w I)]].
   - intros v Hin. cbn [l_queue lset_queue] in Hin. apply order_keys_sound in Hin.
     apply keys_In_lookup in Hin as [e Ee].
     destruct (coh_entry w v e (inv_coh w I v) Ee) as (cd & Hc & Hk & ->).
@@ -871,6 +880,7 @@ Proof.
   - reflexivity.
   - intro u. reflexivity.
   - intro u. reflexivity.
+  - reflexivity.
 Qed.
 
 (* C09, sequential clause *)
